@@ -1299,6 +1299,95 @@ fn main() {
         }
     }
 
+    // --- stream 6: the integer square root at its boundary. `to_int` of a surd brackets the
+    //     irrational part with `__integer_sqrt__(Q²·n)`; the argument is placed exactly one below
+    //     a perfect square m² (Pell solutions m² − n·Q² = 1, and radicals n = k² − 1) with m from
+    //     small through the f64-exact limit 2^26.5, the 32/64-bit boundaries and beyond 2^64.
+    {
+        let mut count = 0u64;
+        let mut push = |cases: &mut Vec<Case>, x: Nm, i: u64| {
+            let ops = ["to_int", "floor", "ceil", "round", "to_int", "sign"];
+            cases.push(Case { ex: Ex::Op("to_int", vec![Ex::lit(&x)]), opaque: i % 3 == 0, stream: "isqrt-boundary", oracle: true, typed: false });
+            let op2 = ops[(i % 6) as usize];
+            if op2 != "to_int" {
+                cases.push(Case { ex: Ex::Op(op2, vec![Ex::lit(&x)]), opaque: i % 2 == 0, stream: "isqrt-boundary", oracle: true, typed: false });
+            }
+        };
+        let limit = BigInt::from(2).pow(opts.tier.pick(72u32, 140u32));
+        for n in [2u64, 3, 5, 6, 7, 10, 11, 13, 14, 15, 17, 19, 21, 22, 23, 26, 29, 30, 31, 33, 35] {
+            // fundamental solution by search
+            let nb = BigInt::from(n);
+            let mut fund = None;
+            for q in 1u64..4000 {
+                let t: BigInt = &nb * BigInt::from(q) * BigInt::from(q) + BigInt::one();
+                let r = t.sqrt();
+                if &r * &r == t {
+                    fund = Some((r, BigInt::from(q)));
+                    break;
+                }
+            }
+            let Some((m1, q1)) = fund else { continue };
+            let (mut m, mut q) = (m1.clone(), q1.clone());
+            while m < limit {
+                let shapes: Vec<Nm> = vec![
+                    Nm::Surd(Co::Int(BigInt::zero()), Co::Int(q.clone()), nb.clone()),
+                    Nm::Surd(Co::Int(BigInt::zero()), Co::Int(-q.clone()), nb.clone()),
+                    Nm::Surd(Co::Int(m.clone()), Co::Int(-q.clone()), nb.clone()),
+                    Nm::Surd(Co::Int(-m.clone()), Co::Int(q.clone()), nb.clone()),
+                    Nm::Surd(Co::Int(BigInt::one() - &m), Co::Int(q.clone()), nb.clone()),
+                    Nm::Surd(Co::Int(BigInt::from(7)), Co::Int(q.clone()), nb.clone()),
+                    Nm::Surd(Co::Rat(BigInt::one(), BigInt::from(3)), Co::Int(q.clone()), nb.clone()),
+                    {
+                        // b = q / d with d coprime to q: Q stays q, the final division is by d
+                        let d = [3u32, 5, 7, 11, 13].iter().map(|d| BigInt::from(*d)).find(|d| q.gcd(d).is_one()).unwrap_or(BigInt::one());
+                        Nm::Surd(Co::Int(BigInt::zero()), co_simplest(&Q::new(q.clone(), d).unwrap()), nb.clone())
+                    },
+                ];
+                for x in shapes {
+                    if host_of(&x).is_some() {
+                        push(&mut cases, x, count);
+                        count += 1;
+                    }
+                }
+                let (m2, q2) = (&m1 * &m + &nb * &q1 * &q, &m1 * &q + &q1 * &m);
+                m = m2;
+                q = q2;
+            }
+        }
+        // radicals n = k² − 1 = (k − 1)(k + 1), k even, both factors square-free ⇒ n square-free
+        let sf = |v: u64| {
+            let mut d = 2u64;
+            while d * d <= v {
+                if v % (d * d) == 0 {
+                    return false;
+                }
+                d += 1;
+            }
+            true
+        };
+        for base in [1u64 << 20, 1 << 26, 94906266, 1 << 27, 1 << 30, 1 << 31, (1 << 32) - 40, 1 << 32, (1 << 33) + 2] {
+            let mut found = 0;
+            let mut k = base - (base % 2);
+            while found < opts.tier.pick(4, 40) {
+                k += 2;
+                if sf(k - 1) && sf(k + 1) {
+                    found += 1;
+                    let kb = BigInt::from(k);
+                    let n: BigInt = &kb * &kb - BigInt::one();
+                    for x in [
+                        Nm::Surd(Co::Int(BigInt::zero()), Co::Int(BigInt::one()), n.clone()),
+                        Nm::Surd(Co::Int(kb.clone()), Co::Int(-BigInt::one()), n.clone()),
+                        Nm::Surd(Co::Int(-kb.clone()), Co::Int(BigInt::one()), n.clone()),
+                        Nm::Surd(Co::Rat(BigInt::one(), BigInt::from(2)), Co::Int(-BigInt::one()), n.clone()),
+                    ] {
+                        push(&mut cases, x, count);
+                        count += 1;
+                    }
+                }
+            }
+        }
+    }
+
     // --- evaluate everything through the real module
     let t0 = std::time::Instant::now();
     let exprs: Vec<String> =
